@@ -355,12 +355,13 @@ func c05GenRun(r *rand.Rand, emit vutil.Emit, n int) {
 	for _, k := range []string{"safebrowsing", "plain"} {
 		scn = append(scn, [3]string{k, "access_set", "home"})
 	}
+	scn = append(scn, [3]string{"safebrowsing", "access_set", "blockhost"}, [3]string{"parental", "dns_config", "blockhost"})
 	for i := 0; i < n; i++ {
 		var sc [3]string
 		if i < len(scn) {
 			sc = scn[i]
 		} else {
-			sc = [3]string{vutil.Pick(r, c05DNSKinds), vutil.Pick(r, c05AdminOps), vutil.Pick(r, []string{"home", "norecurse"})}
+			sc = [3]string{vutil.Pick(r, c05DNSKinds), vutil.Pick(r, c05AdminOps), vutil.Pick(r, []string{"home", "norecurse", "norecurse", "blockhost"})}
 		}
 		emit("C05.run", sc[0], sc[1], vutil.Itoa(2+r.IntN(2)), vutil.Itoa(120+r.IntN(120)), "2",
 			vutil.Itoa(int(r.Uint32()>>1)), sc[2])
@@ -424,6 +425,10 @@ type c05World struct {
 	// finder does not ask the server whether the client is blocked), so that
 	// the other observations are not cut short by that deadlock.
 	norecurse bool
+	// blockhost: as norecurse, but the safe-browsing / parental block hosts are
+	// host names (the defaults), so that only the recursive read lock inside
+	// package dnsforward (genBlockedHost > proxy) remains.
+	blockhost bool
 	t        *testing.T
 	srv      *Server
 	flt      *filtering.DNSFilter
@@ -542,8 +547,9 @@ func c05StartUpstream(t *testing.T) (addr string) {
 	return pc.LocalAddr().String()
 }
 
-func c05NewWorld(t *testing.T, dir string, norecurse bool) (w *c05World) {
-	w = &c05World{t: t, handlers: map[string]http.HandlerFunc{}, dir: dir, norecurse: norecurse}
+func c05NewWorld(t *testing.T, dir string, wiring string) (w *c05World) {
+	norecurse := wiring == "norecurse" || wiring == "blockhost"
+	w = &c05World{t: t, handlers: map[string]http.HandlerFunc{}, dir: dir, norecurse: norecurse, blockhost: wiring == "blockhost"}
 	ctx := context.Background()
 	logger := slogutil.NewDiscardLogger()
 	var err error
@@ -592,7 +598,7 @@ func c05NewWorld(t *testing.T, dir string, norecurse bool) (w *c05World) {
 		Rewrites: []*filtering.LegacyRewrite{{Domain: "rewritten.example", Answer: "10.1.1.1"}},
 		UserRules: []string{"||user-blocked.example^"},
 	}
-	if norecurse {
+	if norecurse && !w.blockhost {
 		fconf.SafeBrowsingBlockHost, fconf.ParentalBlockHost = "192.0.2.10", "192.0.2.11"
 	}
 	rules := "||blocked.example^\n||nxdomain.example.org\n127.0.0.1\thost.example.org\n@@||whitelist.example.org^\n"
@@ -816,7 +822,11 @@ func TestVerifC05Child(t *testing.T) {
 		_ = os.WriteFile(filepath.Join(dir, "result.json"), data, 0o644)
 	}
 
-	w := c05NewWorld(t, dir, len(f) > 7 && f[7] == "norecurse")
+	wiring := "home"
+	if len(f) > 7 {
+		wiring = f[7]
+	}
+	w := c05NewWorld(t, dir, wiring)
 
 	var served, malformed, adminOps atomic.Int64
 	var inflight sync.Map // goroutine id -> what it is doing
@@ -886,7 +896,7 @@ func TestVerifC05Child(t *testing.T) {
 			cur := served.Load() + adminOps.Load()
 			if cur != last {
 				last, since = cur, time.Now()
-			} else if time.Since(since) > 6*time.Second {
+			} else if time.Since(since) > 4*time.Second {
 				close(stalled)
 
 				return
@@ -897,7 +907,7 @@ func TestVerifC05Child(t *testing.T) {
 	case <-finished:
 	case <-stalled:
 		// watchdog: neither a query was answered nor an admin operation
-		// finished for 6 s
+		// finished for 4 s
 		var stuck []string
 		inflight.Range(func(k, v any) bool {
 			if v != "done" {
